@@ -97,6 +97,25 @@ MUTANTS = [
     ('FormatRangeUnified keeps the 1-based start for an empty range', 'internal/difflib/difflib.go',
      '\tif length == 0 {\n\t\tbeginning--\n\t}\n', '',
      lambda f, rc: rc == 0 and changed(f, 'FormatRangeUnified') and 'beginning - (1 : Int)' not in f['funcs']['FormatRangeUnified']),
+    # --- singlelineDiff and its helpers (Generated/FuncsIO.lean, Props/Tie/SingleLine.lean)
+    ('singlelineDiff counts an Insert chunk as a deletion', 'snaps/diff.go',
+     '\t\tcase diffInsert:\n\t\t\tinserted++\n', '\t\tcase diffInsert:\n\t\t\tdeleted++\n',
+     lambda f, rc: rc == 0 and changed(f, 'singlelineDiff') and 'inserted := inserted + (1 : Int)' not in f['funcs']['singlelineDiff'] and others_same(f, 'singlelineDiff')),
+    ('singlelineDiff reads diffs[0] without checking the length (panics on an empty diff)', 'snaps/diff.go',
+     '\tif len(diffs) == 1 && diffs[0].Type == diffEqual {\n', '\tif diffs[0].Type == diffEqual {\n',
+     lambda f, rc: rc == 0 and changed(f, 'singlelineDiff') and 'GoSnaps.GoSem.len diffs' not in f['funcs']['singlelineDiff'] and others_same(f, 'singlelineDiff')),
+    ('FprintBg leaves the reset sequence after the final newline', 'internal/colors/colors.go',
+     '\t\tfmt.Fprintf(w, "%s%s%s%s\\n", bgColor, color, trimSuffix(s), reset)\n', '\t\tfmt.Fprintf(w, "%s%s%s%s", bgColor, color, s, reset)\n',
+     lambda f, rc: rc == 0 and changed(f, 'FprintBg') and 'trimSuffix' not in f['funcs']['FprintBg'] and others_same(f, 'FprintBg', 'singlelineDiff')),      # (FprintBg can no longer panic: its caller's text changes too)
+    ('singlelineDiff asks diffmatchpatch for a line-mode diff (opaque call no longer the declared one)', 'snaps/diff.go',
+     'dmp.DiffMain(expected, received, false)', 'dmp.DiffMain(expected, received, true)',
+     lambda f, rc: rc == 0 and 'singlelineDiff' in f['funcs_failed'] and 'singlelineDiff' not in f['funcs']),
+    ('singlelineDiff leaves the switch with a break (outside the translated subset)', 'snaps/diff.go',
+     '\t\tcase diffEqual:\n\t\t\tcolors.FprintBg(a, colors.RedBg,', '\t\tcase diffEqual:\n\t\t\tif diff.Text == "" {\n\t\t\t\tbreak\n\t\t\t}\n\t\t\tcolors.FprintBg(a, colors.RedBg,',
+     lambda f, rc: rc == 0 and 'singlelineDiff' in f['funcs_failed'] and 'singlelineDiff' not in f['funcs']),
+    ('singlelineDiff writes through a second pointer to the buffer of the - row (aliasing)', 'snaps/diff.go',
+     '\tb := &bytes.Buffer{}\n', '\tb := &bytes.Buffer{}\n\talias := a\n\talias.WriteByte(\'!\')\n',
+     lambda f, rc: rc == 0 and 'singlelineDiff' in f['funcs_failed'] and 'singlelineDiff' not in f['funcs']),
     ('sjson ReplaceInPlace', 'match/utils.go', '\t\tOptimistic: true,\n', '\t\tOptimistic: true,\n\t\tReplaceInPlace: true,\n',
      lambda f, rc: rc == 0 and f['bools']['sjsonReplaceInPlace'] is True),
 ]
